@@ -993,6 +993,9 @@ func oracleC18(res *prodResult, vs *violSet) bool {
 					if ic.Kind != "mutate" {
 						continue
 					}
+					if r.Value == nil {
+						continue // a tombstone has no value to mutate
+					}
 					if k := bytes.Count(r.Value, []byte(fmt.Sprintf("~i%d", i))); k != 1 {
 						id, _ := msgIDFromRecord(r)
 						vs.add("not-once", fmt.Sprintf("%s,on-wire", countClass(k)), fmt.Sprintf("record of message id=%d carries %d applications of mutating interceptor #%d: %q", id, k, i, r.Value))
@@ -1007,6 +1010,9 @@ func oracleC18(res *prodResult, vs *violSet) bool {
 		if ic.Kind == "panic" {
 			hasPanic = true
 		}
+	}
+	if hasPanic && res.stuck {
+		vs.add("pipeline-broken-by-panic", "stuck", "with a panicking interceptor in the chain the producer stopped moving: "+strings.Join(res.stuckWho, "; "))
 	}
 	if hasPanic && res.closeDone {
 		var tmp violSet
